@@ -20,20 +20,24 @@ type Result struct {
 	Known      []string // ids of listed known findings this case ran into (case excluded from the verdict)
 	Programs   int      // distinct Go types first compiled by this case
 	Sub        int      // number of oracle evaluations inside this case (default 1)
+	// Inconclusive is set when the case could not be judged for an infrastructure reason (a worker did not
+	// answer within its deadline on a loaded machine ...). It never counts as a violation; the run ends with exit 2.
+	Inconclusive string
 }
 
 // Shard is the on-disk format of one shard's statistics.
 type Shard struct {
-	Property    string            `json:"property"`
-	Evaluations int64             `json:"evaluations"`
-	Cases       int64             `json:"cases"`
-	NonTrivial  int64             `json:"nontrivial_total"`
-	Classes     map[string]int64  `json:"classes"`
-	Known       map[string]int64  `json:"known"`
-	KnownSample map[string]string `json:"known_sample"`
-	Programs    int64             `json:"programs"`
-	Samples     []json.RawMessage `json:"samples"`
-	Failed      bool              `json:"failed"`
+	Property     string            `json:"property"`
+	Evaluations  int64             `json:"evaluations"`
+	Cases        int64             `json:"cases"`
+	NonTrivial   int64             `json:"nontrivial_total"`
+	Classes      map[string]int64  `json:"classes"`
+	Known        map[string]int64  `json:"known"`
+	KnownSample  map[string]string `json:"known_sample"`
+	Programs     int64             `json:"programs"`
+	Samples      []json.RawMessage `json:"samples"`
+	Failed       bool              `json:"failed"`
+	Inconclusive []string          `json:"inconclusive"`
 }
 
 // Recorder accumulates statistics for one property in one process.
@@ -74,6 +78,9 @@ func (r *Recorder) Record(canon []byte, res Result) {
 		r.s.Evaluations++
 	}
 	r.s.Programs += int64(res.Programs)
+	if res.Inconclusive != "" && len(r.s.Inconclusive) < 20 {
+		r.s.Inconclusive = append(r.s.Inconclusive, res.Inconclusive)
+	}
 	for _, c := range res.Classes {
 		r.s.Classes[c]++
 	}
